@@ -171,8 +171,8 @@ def run(ctx):
     model = C.build_model(ID)
     rng = ctx.rng
     thorough = ctx.tier == "thorough" or not ctx.proof_ok
-    n_ring = 2400 if thorough else 380
-    n_bb = 600 if thorough else 84
+    n_ring = 1800 if thorough else 260
+    n_bb = 460 if thorough else 60
     stats = {"ring_ops": 0, "writes_ok": 0, "writes_failed_oversize": 0, "reads_ok": 0, "reads_enobufs": 0, "reads_empty": 0,
              "peeks": 0, "reclaims": 0, "ring_dumps": 0, "sem_mode_cases": 0, "nosem_cases": 0,
              "bb_log_calls": 0, "bb_fallback_notices": 0, "bb_dumps": 0, "bb_records_read_back": 0, "bb_gave_up_oversize": 0}
@@ -246,7 +246,7 @@ def run(ctx):
             break
 
     # ---------------------------------------------------------------- split stage (C07 gaps: alloc / copy / commit apart, timed waits)
-    n_split = 450 if thorough else 44
+    n_split = 320 if thorough else 30
     kinds["split_cases"] = 0
     stats.update({"split_ops": 0, "split_allocs": 0, "split_allocs_failed": 0, "split_timed_waits": 0})
     scases = split_corpus()
